@@ -22,3 +22,15 @@ package page
 //@ func [C11,C18] ParseSize
 //@   ensures [C11] 1 <= result && result <= 9999
 //@   modifies nothing
+
+// helpers are called with clamped page/size (ParsePage/ParseSize) and a slice length
+//@ func [C11,C18] pagin
+//@   requires 1 <= size && size <= 9999 && 0 <= len && len <= 1000000000000 && 0 <= start && start <= end && end <= len
+//@   modifies nothing
+//@ func [C11,C18] Pagination
+//@   requires 0 <= page && page <= 99999 && 1 <= size && size <= 9999 && 0 <= len && len <= 1000000000000
+//@ func [C11,C18] paginResult
+//@   requires 0 <= len && len <= 1000000000000
+//@   ensures 0 <= result0 && result0 <= result1 && result1 <= len && 1 <= result2 && result2 <= 9999
+//@ func [C11,C18] Pagin
+//@   requires 0 <= len && len <= 1000000000000
